@@ -797,10 +797,15 @@ class Gen5:
                 return
             fp, fb = rng.choice(feats)
             q = rng.random()
-            if q < 0.55:
+            if q < 0.45:
                 tgt, tag = self.pick(ents, "data_array", block=fb), "featdata/same-block"
-            elif q < 0.9:
+            elif q < 0.7:
                 tgt, tag = self.pick(ents, "data_array", notblock=fb), "featdata/foreign"
+            elif q < 0.84:
+                # a DataFrame of the block: accepted by an untagged / indexed feature, refused by a tagged one
+                tgt, tag = self.pick(ents, "data_frame", block=fb), "featdata/frame-same-block"
+            elif q < 0.92:
+                tgt, tag = self.pick(ents, "data_frame", notblock=fb), "featdata/frame-foreign"
             else:
                 tgt, tag = self.pick(ents), "featdata/any-kind"
             if tgt is None:
@@ -1325,7 +1330,7 @@ def same_obj(a, b):
 
 def _content(e):
     """id + content as seen through one handle"""
-    out = {"id": e.id, "name": getattr(e, "name", None), "type": getattr(e, "type", None),
+    out = {"class": type(e).__name__, "id": e.id, "name": getattr(e, "name", None), "type": getattr(e, "type", None),
            "definition": getattr(e, "definition", None)}
     if isinstance(e, nixio.DataArray):
         out["unit"], out["label"] = e.unit, e.label
@@ -1604,10 +1609,10 @@ class Scene:
                 self.fail("%s leads to another object than %s: not the %s %r of block %s that was linked there %s"
                           % (desc, ref[0], key[1], key[2], key[0], when), _brief(h), _brief(ref[2]), "alias-identity")
             elif c != ref[1]:
-                diff = sorted(k for k in c if c[k] != ref[1].get(k))
+                diff = sorted(k for k in set(c) | set(ref[1]) if c.get(k) != ref[1].get(k))
                 self.fail("%s %r of block %s reads differently through %s and %s %s (%s)"
                           % (key[1], key[2], key[0], ref[0], desc, when, ",".join(diff)),
-                          {k: c[k] for k in diff}, {k: ref[1].get(k) for k in diff}, "alias-read")
+                          {k: c.get(k) for k in diff}, {k: ref[1].get(k) for k in diff}, "alias-read")
         return ref[1] if ref else None
 
     def check_all(self, when=""):
@@ -1751,7 +1756,8 @@ class Scene:
                 setattr(mt, role, self.primary((bn, "data_array", "pos")))
                 self.alias((bn, "data_array", "pos"), rdesc,
                            lambda f, bn=bn, mname=mname, role=role: getattr(f.blocks[bn].multi_tags[mname], role))
-            elif (now is None) != (before is None) or (now is not None and not same_obj(now, before)):
+            elif (now is None) != (before is None) or (now is not None and (not same_obj(now, before)
+                                                                            or type(now) is not type(before))):
                 self.fail("refused %s assignment changed the link" % role, None if now is None else _brief(now),
                           None if before is None else _brief(before), "role-refused-changed")
 
@@ -1834,9 +1840,72 @@ class Scene:
                           % ("foreign" if tk[1] == "data_array" else "wrong-kind", tk[1], tk[2], tk[0], bn),
                           "accepted", "refused", "feature-foreign")
                 ft.data = self.primary(self.featdata[fk])
-            elif not same_obj(now, before):
-                self.fail("refused feature data assignment changed the link", _brief(now), _brief(before),
-                          "feature-refused-changed")
+            elif not same_obj(now, before) or type(now) is not type(before):
+                self.fail("refused feature data assignment changed the link", [type(now).__name__] + _brief(now),
+                          [type(before).__name__] + _brief(before), "feature-refused-changed")
+
+    def do_feature_frame(self):
+        """a DataFrame assigned as data of an existing feature whose data is an array: the block's own frame is accepted
+        by an untagged / indexed feature (feature.data is then that frame; the array is assigned back afterwards), a
+        frame of another block, or any frame on a tagged feature, is refused - and then `feature.data` is in every
+        respect what it was: the same object, seen as the same class, reading the same"""
+        rng = self.rng
+        if not self.featdata or not self.frames:
+            return self.do_feature()
+        fk = rng.choice(sorted(self.featdata))
+        bn, tkind, tname, n0 = fk
+        fb = bn if (bn in self.frames and rng.random() < 0.65) else rng.choice(sorted(self.frames))
+        ft = self.primary((bn, tkind, tname)).features[n0]
+        frame = self.f.blocks[fb].data_frames["df"]
+        tagged = ft.link_type == nixio.LinkType.Tagged
+        legal = fb == bn and not tagged
+        before = ft.data
+        cbefore = _content(before)
+        self.log.append(["set feature data", bn, tname, n0, "the data frame df of block %s" % fb,
+                         "feature link type %s" % ft.link_type.value])
+        self.evals += 1
+        try:
+            ft.data = frame
+            accepted = True
+        except Exception as ex:
+            accepted = False
+            exn = type(ex).__name__
+        try:
+            now = self.feat_getter(fk)(self.f)
+        except Exception as ex:
+            self.fail("feature.data raised %s after a DataFrame was assigned (%s)" % (type(ex).__name__,
+                      "accepted" if accepted else "refused"), type(ex).__name__, "a data object", "feature-data")
+            now = None
+        if legal:
+            if not accepted:
+                self.fail("the block's own data frame was refused as data of an %s feature" % ft.link_type.value, exn,
+                          "accepted", "feature")
+            elif now is None or not isinstance(now, nixio.DataFrame) or not same_obj(now, frame):
+                self.fail("feature.data does not yield the data frame that was assigned",
+                          None if now is None else [type(now).__name__] + _brief(now), ["DataFrame"] + _brief(frame),
+                          "feature-data")
+        else:
+            if accepted:
+                self.fail("%s was accepted as data of a %s feature of block %s"
+                          % ("a data frame of block %s" % fb if fb != bn else "a data frame", ft.link_type.value, bn),
+                          "accepted", "refused", "feature-foreign" if fb != bn else "feature-tagged-frame")
+            elif now is not None:
+                if not same_obj(now, before) or type(now) is not type(before):
+                    self.fail("the refused assignment of a data frame changed what feature.data yields",
+                              [type(now).__name__] + _brief(now), [type(before).__name__] + _brief(before),
+                              "feature-refused-changed")
+                else:
+                    cnow = _content(now)
+                    if cnow != cbefore:
+                        diff = sorted(k for k in cnow if cnow[k] != cbefore.get(k))
+                        self.fail("after the refused assignment of a data frame feature.data reads differently (%s)"
+                                  % ",".join(diff), {k: cnow[k] for k in diff}, {k: cbefore.get(k) for k in diff},
+                                  "feature-refused-changed")
+        if accepted:
+            # the array the oracle has on record goes back in (a legal assignment)
+            self.log.append(["set feature data", bn, tname, n0, list(self.featdata[fk]), "(back to the array)"])
+            ft.data = self.primary(self.featdata[fk])
+        self.check_entity(self.featdata[fk], "after a data frame was offered to the feature")
 
     def do_metadata(self):
         rng = self.rng
@@ -2857,7 +2926,7 @@ def _scene_run(ctx, rng, steps, tag):
         acts = [(sc.do_append, 0.26), (sc.do_role, 0.1), (sc.do_feature, 0.07), (sc.do_metadata, 0.07),
                 (sc.do_mutate, 0.16), (sc.do_write, 0.1), (sc.do_dim, 0.22), (sc.reopen, 0.04),
                 (sc.do_calib, 0.05), (sc.do_feature_data, 0.06), (sc.do_frame_write, 0.03), (sc.do_frame_unit, 0.06),
-                (sc.do_stale, 0.05), (sc.do_stray, 0.04), (sc.do_deleted_block, 0.015)]
+                (sc.do_stale, 0.05), (sc.do_stray, 0.04), (sc.do_deleted_block, 0.015), (sc.do_feature_frame, 0.04)]
         tot = sum(w for _, w in acts)
         for _ in range(steps):
             r = rng.random() * tot
